@@ -215,13 +215,83 @@ def relational(F, mon):
                 continue
             if not isinstance(r, Table) or not views_equal(table_view(r), table_view(r0)):
                 F.add("form_" + cname.split()[0].replace("inner_join", "join"), case, view(r), view(r0))
+    # columns whose names sanitise alike ('Region' / 'region', 'a b' / 'a_b'): a string spec that equals a stored name means
+    # THAT column - the result must be the one obtained by handing over the column object itself
+    cols = {"Region": ["x", "y", "x", "y", "x"], "region": ["p", "p", "q", "r", "r"], "a b": [1, 1, 2, 2, 3], "a_b": [5, 4, 3, 2, 1], "val": [1, 2, 3, 4, 5]}
+    look = {
+        "sort_by": lambda t, k: t.sort_by(k, reverse=True), "aggregate": lambda t, k: t.aggregate(over=k, sum_over="val"),
+        "window": lambda t, k: t.window(over=k, count_over="val"), "aggregate value": lambda t, k: t.aggregate(over="val", max_over=k),
+        "join": lambda t, k: t.join(Table({"j": list(dict.fromkeys(cols[k if isinstance(k, str) else k.name])), "z": list(range(len(set(cols[k if isinstance(k, str) else k.name]))))}), k, "j"),
+        "t[name]": lambda t, k: t[k] if isinstance(k, str) else k, "t[(names)]": lambda t, k: t[(k, "val")] if isinstance(k, str) else Table([k, t["val"]]),
+    }
+    for cname, call in look.items():
+        for nm in ("Region", "region", "a b", "a_b"):
+            for order in (list(cols), list(reversed(list(cols)))):
+                t = Table({k: list(cols[k]) for k in order})
+                colobj = t.cols()[order.index(nm)]
+                st0, r0, e0 = attempt(lambda: call(t, colobj))
+                st, r, e = attempt(lambda: call(t, nm))
+                ex += 1
+                case = {"call": cname, "column named": nm, "columns": order}
+                if st0 != "ok" or st != "ok":
+                    if st0 != st:
+                        F.add("form_" + cname.split()[0].replace("t[name]", "index").replace("t[(names)]", "index"), case,
+                              "by name: " + (type(e).__name__ if e else "ok") + ", by column object: " + (type(e0).__name__ if e0 else "ok"), "the same outcome")
+                    continue
+                if not views_equal(view(r), view(r0)):
+                    F.add("form_" + cname.split()[0].replace("t[name]", "index").replace("t[(names)]", "index"), case, view(r), view(r0))
+    return ex
+
+
+def purity(F, mon):
+    """C01: "operations that return a new object never change their operands" - every value-returning public operation of a
+    vector, called with arguments of the same, a wider and an incompatible kind, on a free vector and on a live table column:
+    afterwards the receiver (contents, name, dtype, fingerprint), the other operand and the table are what they were"""
+    from datetime import datetime, timedelta
+    ex = 0
+    wide = {"int": [0, 7, 1.5, 2 + 1j, True, "z", None], "int?": [0, 1.5, "z", None], "float": [0.0, 2, 1 + 1j, "z"], "str": ["", "z", 3],
+            "bool": [True, 2, 1.5, "z"], "date": [date(2000, 1, 1), datetime(2000, 1, 1, 12), 3, "z"]}
+    for kind, vals in DATA.items():
+        ops = [("dropna", lambda v: v.dropna()), ("isna", lambda v: v.isna()), ("to_object", lambda v: v.to_object()), ("unique", lambda v: v.unique()),
+               ("copy", lambda v: v.copy()), ("T", lambda v: v.T), ("sort_by", lambda v: v.sort_by()), ("sort_by desc", lambda v: v.sort_by(reverse=True, na_last=False)),
+               ("argsort", lambda v: v.argsort()), ("max", lambda v: v.max()), ("min", lambda v: v.min()), ("sum", lambda v: v.sum()),
+               ("mean", lambda v: v.mean()), ("stdev", lambda v: v.stdev()), ("any", lambda v: v.any()), ("all", lambda v: v.all()),
+               ("repr", lambda v: repr(v)), ("fingerprint", lambda v: v.fingerprint()), ("schema", lambda v: v.schema()), ("isinstance", lambda v: v.isinstance((int, str))),
+               ("pluck", lambda v: v.pluck(0)), ("v[::-1]", lambda v: v[::-1]), ("v[mask]", lambda v: v[[True, False, True]]), ("iter", lambda v: list(v)),
+               ("neg", lambda v: -v), ("abs", lambda v: abs(v)), ("v << []", lambda v: v << []), ("v >> v", lambda v: v >> v), ("v @ v", lambda v: v @ v)]
+        for target in (int, float, str, bool, complex, date, datetime):
+            ops.append(("cast(%s)" % target.__name__, lambda v, target=target: v.cast(target)))
+        for x in wide[kind]:
+            ops += [("fillna(%r)" % (x,), lambda v, x=x: v.fillna(x)), ("v + %r" % (x,), lambda v, x=x: v + x), ("%r + v" % (x,), lambda v, x=x: x + v),
+                    ("v * %r" % (x,), lambda v, x=x: v * x), ("v == %r" % (x,), lambda v, x=x: v == x), ("v < %r" % (x,), lambda v, x=x: v < x),
+                    ("v << [%r]" % (x,), lambda v, x=x: v << [x]), ("v + [x]*3", lambda v, x=x: v + [x, x, x]), ("v + Vector", lambda v, x=x: v + Vector([x, x, x], name="o")),
+                    ("v >> Vector", lambda v, x=x: v >> Vector([x, x, x], name="o")), ("v ** x", lambda v, x=x: v ** x), ("v / x", lambda v, x=x: v / x)]
+        for oname, op in ops:
+            for where in ("free vector", "table column"):
+                if where == "free vector":
+                    t = None
+                    v = Vector(list(vals), name="v")
+                else:
+                    t = Table({"v": list(vals), "k": [1, 2, 3]})
+                    v = t.v
+                before, fp0 = vec_view(v), v.fingerprint()
+                tb = table_view(t) if t is not None else None
+                st, r, e = attempt(lambda: op(v))
+                ex += 1
+                case = {"kind": kind, "operation": oname, "receiver": where, "outcome": "ok" if st == "ok" else type(e).__name__}
+                if not views_equal(vec_view(v), before) or v.fingerprint() != fp0:
+                    F.add("operands_unchanged", case, vec_view(v), before)
+                if t is not None and not views_equal(table_view(t), tb):
+                    F.add("operands_unchanged", case, table_view(t), tb)
+                if st == "ok" and r is v and oname not in ("schema",):
+                    F.add("operands_unchanged", case, "the operation returned its receiver", "a new object")
     return ex
 
 
 def main():
     out = sys.argv[1]
     F, mon = Fails(), Monitor()
-    ex = elementwise(F, mon) + indexing(F, mon) + relational(F, mon)
+    ex = elementwise(F, mon) + indexing(F, mon) + relational(F, mon) + purity(F, mon)
     json.dump({"executed": ex, "failures": F.items, "per_clause": F.per, "skipped": {}, **mon.dump()}, open(out, "w"), default=str)
 
 
